@@ -299,7 +299,8 @@ def process(job):
         except Exception as e:
             cases_from_capture(list(_CAP), seen, res['cases'], stats, only)
             msg = '%s: %s' % (type(e).__name__, str(e).split('\n')[0][:80])
-            key = 't2listing:open-raises:' + re.sub(r'[^A-Za-z]+', '-', msg)[:60]
+            key = 't2listing:open-raises:' + type(e).__name__
+            if type(e) is Exception: key += ':' + '-'.join(re.findall(r'[A-Za-z]+', str(e).split(':')[0])[:4])
             if 'Unable to parse table line' in str(e) and times:
                 bad = str(e).split('\n', 1)[1].rstrip('\r\n') if '\n' in str(e) else ''
                 for p in times[0]:
